@@ -533,10 +533,10 @@ pub fn run(ctx: &Ctx, evidence: Option<&PathBuf>) -> i32 {
     let sweep_n = match ctx.scale {
         Scale::Full => 1024,
         Scale::San => 256,
-        Scale::Miri => 2,
+        Scale::Miri => 1,
     };
     ctx.run_fixed("header-sweep", sweep_n, header_sweep);
-    let n = ctx.size3(25_000, 2_500_000, 6);
+    let n = ctx.size3(25_000, 2_500_000, 3);
     let mutated = |c: &mut Case| {
         let (mut bytes, buffer) = valid_connection(&mut c.rng);
         let n_mut = c.rng.below(5);
@@ -554,7 +554,7 @@ pub fn run(ctx: &Ctx, evidence: Option<&PathBuf>) -> i32 {
             c.l.sample(Json::obj().with("mutations", kinds.iter().map(|k| Json::from(*k)).collect::<Vec<_>>()).with("buffer_size", buffer).with("input_len", bytes.len()).with("input_head_hex", hex_cap(&bytes, 64)));
         }
     };
-    ctx.run_fixed("mutated-directed", ctx.dn(300), mutated);
+    ctx.run_fixed("mutated-directed", if ctx.miri() { 2 } else { ctx.dn(300) }, mutated);
     ctx.run_cases("mutated", n, mutated);
     ctx.run_cases("random-bytes", ctx.size3(3_000, 300_000, 4), |c| {
         let mut bytes = c.rng.rbytes(400);
